@@ -40,6 +40,13 @@ THEOREMS = [
     "C15_reload_same",
     "C15_at_any_moment_heap",
     "C15_replace_panel",
+    "C15_pull_frame",
+    "C15_pull_no_restore_witness",
+    "C15_relabel_refused_noop",
+    "C15_relabel_ok",
+    "C15_relabel_pop_first_witness",
+    "C15_return_keys",
+    "C15_return_skip_nd_witness",
 ]
 RULE = (
     "seeded random editing histories of a real Workflow (add/remove/re-add/replace children of two node "
@@ -336,6 +343,8 @@ class _Sim:
             self.conn[cid] = set()
 
 
+BAD_LABELS = ["in/valid", "a/b", 7, "inputs", "run"]
+RESERVED = ["inputs", "outputs", "run", "children", "label", "signals"]  # attributes of a Workflow, never children here
 NAMES = ["x", "y", "z"]
 VALUES = [1, 7, "p", "q", True, False, None, 42]
 
@@ -627,18 +636,44 @@ def _random_case(rng, tier):
             for sd in ("in", "out"):
                 if sim.umap[sd] is not None:
                     sim.foreign[sd].add("stale")
-        elif r < 0.88:
+        elif r < 0.85:
             side = "in" if rng.random() < 0.8 else "out"
             keys = sim.keys(side)
             key = rng.choice(keys) if keys and rng.random() < 0.85 else rng.choice(["qq", "n0__a", "n1__o", "x", "y"])
             ops.append(["assign", side, key, rng.choice(VALUES)])
-        elif r < 0.975:
+        elif r < 0.925:
             keys = sim.keys("in")
             kw = {}
             for _ in range(rng.choice([0, 0, 1, 1, 2])):
                 k = rng.choice(keys) if keys and rng.random() < 0.9 else "nokey"
                 kw[k] = rng.choice(VALUES)
-            ops.append(["run", kw])
+            if ct and rng.random() < 0.3:
+                # a hand-made execution flow that does not reach every child: no run signals, these starters only
+                free = [t for t in ct if not any(sim.conn[c] for t2, _l, c in sim.chans("in", [t]))] or ct
+                starters = rng.sample(free, rng.randint(1, max(1, min(2, len(free)))))
+                ops.append(["run", kw, starters])
+            else:
+                ops.append(["run", kw])
+        elif r < 0.955:
+            # a pull of a child; sometimes an upstream sibling (or the child itself) raises during it
+            if ct:
+                tag = rng.choice(ct)
+                up = [t for t in ct if sim.inst[t]["kind"] == "F"]
+                ops.append(["pull", tag, rng.choice(["pull", "call"]),
+                            rng.choice(up) if up and rng.random() < 0.5 else None])
+        elif r < 0.985:
+            # re-labelling a held child through the workflow, by every route, valid or not
+            if sim.children:
+                label, tag = rng.choice(sim.children)
+                q = rng.random()
+                others = [l for l, _t in sim.children if l != label]
+                new = (rng.choice([l for l in LABELS + ["first", "m9"] if l not in [c[0] for c in sim.children]] or ["m9"])
+                       if q < 0.45 else rng.choice(BAD_LABELS) if q < 0.8
+                       else rng.choice(others) if others and q < 0.93 else label)
+                ops.append(["relabel", tag, new, rng.choice(["add_child", "setitem", "setattr"])])
+                if isinstance(new, str) and "/" not in new and new not in RESERVED and new not in others and new != label:
+                    sim.children = [(l, t) for l, t in sim.children if t != tag] + [(new, tag)]
+                    sim.label[tag] = new
         else:
             if sim.children:
                 label, tag = rng.choice(sim.children)
@@ -767,6 +802,26 @@ def corpus():
                    ["medit", "out", "held", [["del", "n0__o"]]], ["reload"],
                    ["medit", "out", "getter", [["set", "n1__o", None]]],
                    ["medit", "in", "stale", [["clear"]]], ["run", {"q": 3}]]}
+
+    # a pull that succeeds, one whose upstream sibling raises, one on a cyclic data tree: the IO stays as it was;
+    # the workflow is then run through its (unchanged) keys
+    yield {"ops": [["add", "F", "up", "k0"], ["add", "F", "down", "k1"], ["connect", "assign", "k1.a", "k0.o"],
+                   ["pull", "k1", "pull", None], ["assign", "in", "up__a", 5], ["pull", "k1", "pull", "k0"],
+                   ["run", {"up__a": 3}], ["pull", "k1", "call", "k1"], ["connect", "assign", "k0.b", "k1.o"],
+                   ["pull", "k1", "pull", None], ["run", {}]]}
+    # re-labelling a held child by every route: accepted, then refused (delimiter, non-string, sibling's label,
+    # attribute of the workflow), then the workflow is run through the new key
+    yield {"ops": [["add", "F", "a", "k0"], ["add", "F", "b", "k1"], ["connect", "assign", "k1.a", "k0.o"],
+                   ["relabel", "k0", "first", "add_child"], ["relabel", "k0", "in/valid", "add_child"],
+                   ["relabel", "k0", 7, "add_child"], ["relabel", "k0", "a/b", "setitem"], ["relabel", "k0", 7, "setitem"],
+                   ["relabel", "k0", "x/y", "setattr"], ["relabel", "k0", "b", "setattr"], ["relabel", "k0", "run", "add_child"],
+                   ["relabel", "k0", "first", "setitem"], ["relabel", "k1", "second", "setattr"],
+                   ["map", "in", {"first__a": "x", "a__b": None}, "dict"], ["run", {"x": 2}]]}
+    # runs whose flow does not reach every child: the returned dict has the keys of wf.outputs, placeholders included
+    yield {"ops": [["add", "F", "n0", "k0"], ["add", "F", "n1", "k1"], ["add", "F", "n2", "k2"],
+                   ["map", "out", {"n0__o": "yes", "n1__o": "no"}, "dict"], ["run", {"n0__a": 10}, ["k0"]],
+                   ["run", {}, ["k1"]], ["map", "out", {"n0__o": None}, "dict"], ["run", {"n1__a": 20}, ["k1"]],
+                   ["run", {}]]}
 
     # KF-C15-1: a connected channel exposed through the map, then replace_child. README_REPLACE is the
     # README's own example (raises RecursionError; the state it ends in depends on the stack depth),
@@ -950,6 +1005,7 @@ def run_impl(case):
         return {
             "op": op, "res": res, "ret": ret, "info": info or {},
             "children": [(lab, tag_of.get(id(ch), "?")) for lab, ch in wf.children.items()],
+            "labels": [(lab, ch.label if isinstance(ch.label, str) else repr(ch.label)) for lab, ch in wf.children.items()],
             "conns": [[index.get(id(c), -1) for c in ch.connections] for ch in obj],
             "vals": [tok(ch.value) for ch in obj],
             "panel": {"in": panel("in"), "out": panel("out")},
@@ -1095,9 +1151,52 @@ def run_impl(case):
                     index.update({id(ch): i for i, ch in enumerate(obj)})
             elif what == "assign":
                 setattr(wf.inputs if op[1] == "in" else wf.outputs, op[2], _tup(op[3]))
+            elif what == "pull":
+                n = node.get(op[1])
+                if n is None or n.parent is not wf:
+                    res = "skip"
+                else:
+                    info["label"] = n.label
+                    bad = node.get(op[3]) if op[3] else None
+                    bad_i = inst[op[3]]["order"] % nodes.N_TERM if bad is not None and inst[op[3]]["kind"] == "F" else None
+                    if bad_i is not None:
+                        nodes.FAIL[bad_i] = {0}
+                        cache, bad.use_cache = bad.use_cache, False
+                    try:
+                        n.pull() if op[2] == "pull" else n()
+                    except Exception as e:  # noqa: BLE001
+                        res = "exc:" + type(e).__name__
+                    finally:
+                        if bad_i is not None:
+                            nodes.FAIL.pop(bad_i, None)
+                            bad.use_cache = cache
+                        for m in [wf, *node.values()]:
+                            m.failed = False
+                            m.running = False
+            elif what == "relabel":
+                n = node.get(op[1])
+                if n is None or n.parent is not wf or not isinstance(n.label, str) or wf.children.get(n.label) is not n:
+                    res = "skip"
+                else:
+                    info["old"] = n.label
+                    if op[3] == "add_child":
+                        wf.add_child(n, label=op[2])
+                    elif op[3] == "setitem":
+                        wf[op[2]] = n
+                    else:
+                        setattr(wf, op[2], n)
             elif what == "run":
                 try:
-                    out = wf(**{k: _tup(v) for k, v in op[1].items()})
+                    if len(op) > 2:
+                        # a hand-made flow: no run signals at all, the listed children are the starting nodes
+                        wf.automate_execution = False
+                        for m in wf.children.values():
+                            m.signals.disconnect_run()
+                        wf.starting_nodes = [node[t] for t in op[2] if t in node and node[t].parent is wf]
+                    try:
+                        out = wf(**{k: _tup(v) for k, v in op[1].items()})
+                    finally:
+                        wf.automate_execution = True
                     info["ret_type_ok"] = isinstance(out, dict)
                     ret = [(k, tok(v)) for k, v in out.items()]
                 except Exception as e:  # noqa: BLE001
@@ -1259,6 +1358,15 @@ def model_input(case, impl=None):
                 if op[1] or prev_vals is None or c >= len(prev_vals) or prev_vals[c] != v:
                     lines.append(f"q val {c} {v}")
             lines.append(f"run {res}")
+        elif what == "pull":
+            for c, v in enumerate(st["vals"]):
+                if prev_vals is None or c >= len(prev_vals) or prev_vals[c] != v:
+                    lines.append(f"q val {c} {v}")
+            lines.append(f"pull {st['info']['label']} {res}")
+        elif what == "relabel":
+            new = op[2]
+            arg = "nonstr" if not isinstance(new, str) else f"attr:{new}" if new in RESERVED else f"s:{new}"
+            lines.append(f"relabel {st['info']['old']} {arg}")
         elif what == "replace" and st["info"].get("dead"):
             # a replace_child that recursed out of its own revert: the history ends here (see run_impl);
             # whether the state it leaves is consistent is judged by the oracle alone
@@ -1389,6 +1497,30 @@ def oracle(case, r):
             if seen != umap[side]:
                 fails.append(_f("map-content", k, op, f"{side}: the map reads {seen}, the user asked for "
                                                       f"{umap[side]}", side=side))
+
+        # ---- a child is labelled as the workflow holds it (`child-label__channel-label`)
+        for lab, actual in st.get("labels", []):
+            if lab != actual:
+                fails.append(_f("child-label-drift", k, op, f"the child held as {lab!r} is labelled {actual!r}"))
+                break
+
+        # ---- a pull (whatever became of it) and a REFUSED re-labelling leave the IO literally as it was
+        if prev is not None and (op[0] == "pull" or (op[0] == "relabel" and res != "ok")):
+            if st["children"] != prev["children"] or st["panel"] != prev["panel"]:
+                fails.append(_f("io-changed-by-pull" if op[0] == "pull" else "refused-edit-changed-io", k, op,
+                                f"{res}: children {prev['children']} -> {st['children']}, panels "
+                                f"{prev['panel']} -> {st['panel']}"))
+        # ---- an accepted re-labelling files the same node under the new label
+        if prev is not None and op[0] == "relabel" and res == "ok":
+            tag = op[1]
+            if sorted(t for _l, t in st["children"]) != sorted(t for _l, t in prev["children"]) \
+                    or (op[2], tag) not in [tuple(x) for x in st["children"]]:
+                fails.append(_f("relabel-lost-child", k, op, f"{prev['children']} -> {st['children']}"))
+        # a legal new label (a string without the delimiter, no sibling's, no attribute of the workflow) is accepted
+        if prev is not None and op[0] == "relabel" and res not in ("ok", "skip") and isinstance(op[2], str) \
+                and "/" not in op[2] and op[2] not in RESERVED \
+                and op[2] not in [l for l, t in prev["children"] if t != op[1]]:
+            fails.append(_f("valid-relabel-refused", k, op, res))
 
         # ---- replacing a child by a node with the same channels is an edit like any other: where both panels
         # could be built before, it must go through (a refusal would leave a child un-replaceable)
